@@ -106,6 +106,7 @@ def run(ctx, res):
             total = Mx.OR(total, o.state.pc)
             if any(t in o.state.tags for t in ("opaque-switch", "opaque-assert", "unknown-callee")):
                 res.errors.append("imprecise trace for kind %s: %r" % (kind, o.state.tags))
+                continue     # an imprecisely followed trace decides nothing
             care = Mx.AND(o.state.pc, care0)
             if care == 0:
                 continue
